@@ -116,6 +116,22 @@ func (p *c08Probe) hit(c antlr.ParserRuleContext) {
 		b.WriteString(name)
 		b.WriteString("/")
 		b.WriteString(strconv.FormatInt(e.FieldByName("depth").Int(), 10))
+		// visitor-field state: a visitor with a partIdx counter over Query.Parts (MultiPartQueryVisitor)
+		if !v.IsNil() && v.Elem().Kind() == reflect.Pointer && v.Elem().Elem().Kind() == reflect.Struct {
+			sv := v.Elem().Elem()
+			if pi := sv.FieldByName("partIdx"); pi.IsValid() {
+				n := int64(-1)
+				if q := sv.FieldByName("Query"); q.IsValid() && q.Kind() == reflect.Pointer && !q.IsNil() {
+					if parts := q.Elem().FieldByName("Parts"); parts.IsValid() {
+						n = int64(parts.Len())
+					}
+				}
+				b.WriteString("#")
+				b.WriteString(strconv.FormatInt(n, 10))
+				b.WriteString("/")
+				b.WriteString(strconv.FormatInt(pi.Int(), 10))
+			}
+		}
 		b.WriteString(",")
 	}
 	b.WriteString(";")
@@ -388,9 +404,28 @@ func (r *c08Runner) Step(t []string, raw string) string {
 	} else {
 		r.stats.Inc("blank_inputs")
 	}
+	// a slow parse is re-measured twice (minimum counts): a stall of a loaded machine must not raise a false alarm
 	slow := 0
 	if n.dur > 20*time.Second || d.dur > 20*time.Second {
-		slow = 1
+		best := n.dur
+		if d.dur > best {
+			best = d.dur
+		}
+		for rep := 0; rep < 2 && best > 20*time.Second; rep++ {
+			a := c08Parse(frontend.NewContext(), text)
+			b := c08Parse(frontend.DefaultCypherContext(), text)
+			m := a.dur
+			if b.dur > m {
+				m = b.dur
+			}
+			if m < best {
+				best = m
+			}
+		}
+		if best > 20*time.Second {
+			slow = 1
+		}
+		r.stats.Inc("slow_remeasured")
 	}
 	return fmt.Sprintf("n=%s/%d d=%s/%d nsyn=%d nother=%d nunsup=[%s] dsyn=%d dother=%d dfilt=%d dunsup=[%s] inc=[%s] slow=%d trace=%s tree=%s",
 		n.cls, n.isNil, d.cls, d.isNil, n.syn, n.other, strings.Join(n.unsup, ","), d.syn, d.other, d.filt, strings.Join(d.unsup, ","),
@@ -577,6 +612,14 @@ func (c08Suite) Gen(rng *Rng, tier string, w *bufio.Writer, stats *Stats) {
 			}
 		}
 		emit("corpus:"+c.Source, q)
+	}
+	// multi-part queries whose parts open with an updating clause (Parts / partIdx bookkeeping of MultiPartQueryVisitor)
+	nmp := 40
+	if thorough {
+		nmp = 600
+	}
+	for _, q := range multiPartShapes(rng, nmp) {
+		emit("multipart", q)
 	}
 	// unbalanced delimiters: delete / duplicate / swap one delimiter
 	delims := "()[]{}'\"`"
